@@ -53,6 +53,22 @@ def check(tier="quick", seed=0):
             continue
         ob(nm, tuple(t[:2]) == (maj, mi), key=mg, detail={"row": row["text"], "xdis": list(t)})
 
+    # (ii') the version-string parser on every name the table has: the tuple starts with the name's own major.minor (and
+    #       carries the patch level when the name has one)
+    for name in sorted(M.magics):
+        mm = re.match(r"^(\d+)\.(\d+)(?:\.(\d+))?", name)
+        if not mm:
+            ob("py_str2tuple/%s" % name, False, key="py_str2tuple:" + name, detail={"problem": "table name does not start with major.minor"})
+            continue
+        try:
+            t = tuple(M.py_str2tuple(name))
+        except Exception as e:
+            ob("py_str2tuple/%s" % name, False, key="py_str2tuple:" + name, detail={"problem": repr(e)[:200]})
+            continue
+        want = (int(mm.group(1)), int(mm.group(2)))
+        ob("py_str2tuple/%s" % name, t[:2] == want and (len(t) == 2 or (mm.group(3) is not None and t[2:] == (int(mm.group(3)),))), key="py_str2tuple:" + name,
+           detail={"want": list(want), "got": list(t)})
+
     # (iii) every accepted magic resolves to a version tuple and an opcode table
     # the interim magics load.py refuses: the tuple of integer constants in `if magic_int in (...)` whose body raises the
     # "is interim Python" ImportError -- found in the AST, so that formatting of the source does not matter
